@@ -4,6 +4,7 @@ package main
 
 import (
 	"bytes"
+	"context"
 	"crypto/sha256"
 	"encoding/binary"
 	"fmt"
@@ -177,6 +178,106 @@ func runOffer(o *Out, r *rand.Rand, thorough bool, _ []string) {
 			continue
 		}
 		o.Case("overlap", decodeAccept(1, r1, 1)+" / "+decodeAccept(1, r2, 1))
+	}
+	// the life cycle of the in-flight mark (version 1): a sequence of offers over a small pool of fresh in-range keys, each
+	// either from a peer that never opens the announced uTP connection (its accepted keys stay "being received") or from
+	// a real instance that delivers at once (its accepted keys stop being received when its own transfer has ended -
+	// and only those). Every verdict is compared with the model's in-flight set.
+	{
+		nSeq := 40
+		if thorough {
+			nSeq = 600
+		}
+		rcv := startNode(mn, r, nodeOpts{ip: net.IP{34, 60, 2, 1}, port: 9411, versions: []uint8{0, 1}, utpLimit: 100000, queueCap: 4096,
+			store: &radiusStore{db: map[string][]byte{}, radius: radius}})
+		snd := startNode(mn, r, nodeOpts{ip: net.IP{34, 60, 2, 2}, port: 9412, versions: []uint8{0, 1}, utpLimit: 100000})
+		rcv.p.AddEnr(snd.p.Self())
+		snd.p.AddEnr(rcv.p.Self())
+		_, _ = snd.p.VerifPing(rcv.p.Self())
+		for c := 0; c < nSeq; c++ {
+			var pool [][]byte
+			for len(pool) < 4 {
+				key := make([]byte, 16)
+				r.Read(key)
+				idh := sha256.Sum256(key)
+				if portalwire.VerifInRange(rcv.p.Self().ID(), radius, idh[:]) {
+					pool = append(pool, key)
+				}
+			}
+			var ops, outs []string
+			nOps := 3 + r.Intn(3)
+			for k := 0; k < nOps; k++ {
+				completes := k > 0 && r.Intn(2) == 0
+				perm := r.Perm(len(pool))[:1+r.Intn(3)]
+				var keys [][]byte
+				var ks []string
+				for _, ix := range perm {
+					keys = append(keys, pool[ix])
+					ks = append(ks, fmt.Sprint(ix))
+				}
+				if !completes {
+					asker := signRecPad(keyFromSeed(r), net.IP{34, 74, byte(c), byte(1 + k)}, 5000, 1, 0)
+					rcv.p.VerifVersionsCacheSet(asker, 1)
+					resp, err := rcv.p.VerifHandleOffer(asker, &net.UDPAddr{IP: asker.IP(), Port: 5000}, &portalwire.Offer{ContentKeys: keys})
+					ops = append(ops, "p:"+strings.Join(ks, "."))
+					if err != nil {
+						outs = append(outs, "error")
+					} else {
+						outs = append(outs, strings.TrimPrefix(strings.Fields(decodeAccept(1, resp, len(keys)))[0], "verdicts="))
+					}
+					continue
+				}
+				ops = append(ops, "c:"+strings.Join(ks, "."))
+				// an offer from a real instance whose transfer ENDS at once: it opens the announced connection and sends a
+				// stream with one item too many, which the receiver discards (a successful transfer keeps the receive
+				// goroutine waiting on the same connection id for another connect timeout)
+				rcv.p.VerifVersionsCacheSet(snd.p.Self(), 1)
+				freeBefore := freeSlots(rcv, true, 100000)
+				resp, err := rcv.p.VerifHandleOffer(snd.p.Self(), snd.udpAddr(), &portalwire.Offer{ContentKeys: keys})
+				if err != nil || len(resp) < 2 {
+					outs = append(outs, "error")
+					continue
+				}
+				vstr := strings.TrimPrefix(strings.Fields(decodeAccept(1, resp, len(keys)))[0], "verdicts=")
+				outs = append(outs, vstr)
+				acc := &portalwire.AcceptV1{}
+				if acc.UnmarshalSSZ(resp[1:]) != nil {
+					continue
+				}
+				accepted := 0
+				for _, b := range acc.ContentKeys {
+					if b == 0 {
+						accepted++
+					}
+				}
+				if accepted == 0 {
+					continue
+				}
+				items := make([][]byte, accepted+1)
+				for i := range items {
+					items[i] = genBytes(30, i)
+				}
+				ctx, cancel := context.WithTimeout(context.Background(), 5*time.Second)
+				conn, err := snd.p.Utp.DialWithCid(ctx, rcv.p.Self(), binary.BigEndian.Uint16(acc.ConnectionId))
+				if err != nil {
+					outs[len(outs)-1] += "!nodial"
+					cancel()
+					continue
+				}
+				_, _ = conn.Write(ctx, portalwire.VerifEncodeContents(items))
+				conn.Close()
+				cancel()
+				// the slot comes back when the stream has been read; the goroutine then discards it and cleans up
+				deadline := time.Now().Add(5 * time.Second)
+				for freeSlots(rcv, true, 100000) < freeBefore && time.Now().Before(deadline) {
+					time.Sleep(5 * time.Millisecond)
+				}
+				time.Sleep(30 * time.Millisecond)
+			}
+			o.Case("inflight ops="+strings.Join(ops, ";"), strings.Join(outs, "/"))
+		}
+		rcv.stop()
+		snd.stop()
 	}
 	// an unsupported negotiated version: no verdicts, an error
 	asker := signRecPad(keyFromSeed(r), net.IP{34, 71, 1, 1}, 5000, 1, 0)
